@@ -237,6 +237,10 @@ def run(ctx):
                                  (['gaussian', 'uniform', 'constant'], 'equi-positive', 'dict', 5000 if quick else 12000),
                                  (['timestamp', 'gaussian'], 'equi-negative', 'class', 2600 if quick else 5200)):
         clist.append({'layout': lay, 'pattern': pat, 'form': form, 'n': 1000, 'big': rows})
+    # and three requests with four and five columns, one of them constant, under the AR(0.8) pattern (all pairwise correlations differ)
+    for lay, form in ((['gaussian', 'constant', 'uniform', 'gaussian', 'gamma'], 'dict'), (['timestamp', 'gaussian', 'constant', 'gaussian'], 'instance'),
+                      (['uniform', 'gaussian', 'gaussian', 'constant'], 'class')):
+        clist.append({'layout': lay, 'pattern': 'ar', 'form': form, 'n': 1000})
     jobs = [(c, ctx.seed * 13 + i + (1 if c.get('big') and ((ctx.seed * 13 + i) // 2) % 2 == 0 else 0) * 2, ntrain, nsample) for i, c in enumerate(clist)]
     jobs_sorted = sorted(range(len(jobs)), key=lambda i: -(len(jobs[i][0]['layout']) * (3 if jobs[i][0]['form'] in ('default', 'dict') else 1)))
     with Pool(16) as pool:
